@@ -58,6 +58,9 @@ func modelApply(kind string, texts []string) (V, error) {
 		if len(texts) == 0 {
 			return V{Nil: true}, nil
 		}
+		if e := elemKind(kind); isSliceKind(e) || isMapKind(e) {
+			return modelApply(e, texts) // pointer to a slice or map: the pointee is built like a plain one
+		}
 		return plainToV(elemKind(kind), texts[len(texts)-1])
 	case isFuncKind(kind):
 		return V{}, fmt.Errorf("model: callbacks have no value")
